@@ -227,21 +227,22 @@ func stageDqcache(out string, seed uint64, tier string) error {
 	only := []pkgT{{Name: "only", Version: "1"}, {Name: "common", Version: "1"}}
 	common := []pkgT{{Name: "common", Version: "1"}}
 	{
-		// C08-F2 seen from C14, both orders
+		// replays of the fixed finding C08-F2 (fix 3541d7b: one cache entry per grouping) seen from C14, both orders:
+		// every call must be handed the difference of its own grouping; a regression is a VIOLATION
 		p := mkPool(only, common)
 		multi := func(self string, n string) hCall { return mkCall(p, []group{g("x", 0), g("y", 1)}, self, n) }
 		single := func(n string) hCall { return mkCall(p, []group{g("x", 0, 1)}, "x", n) }
-		add(&history{Note: "C08-F2: {x:[i0], y:[i1]} then {x:[i0,i1]}: the single-architecture call is handed the two-architecture set and fails", Pool: p,
-			Calls: []hCall{multi("x", "only"), single("only")}}, "corpus/finding")
-		add(&history{Note: "C08-F2, other order: the two-architecture call is handed the empty set and installs only=1, which y lacks", Pool: p,
-			Calls: []hCall{single("only"), multi("x", "only")}}, "corpus/finding")
+		add(&history{Note: "fixed 3541d7b (was C08-F2): {x:[i0], y:[i1]} then {x:[i0,i1]}: the single-architecture call used to be handed the two-architecture set and fail", Pool: p,
+			Calls: []hCall{multi("x", "only"), single("only")}}, "corpus/fixed-F2")
+		add(&history{Note: "fixed 3541d7b (was C08-F2), other order: the two-architecture call used to be handed the empty set and install only=1, which y lacks", Pool: p,
+			Calls: []hCall{single("only"), multi("x", "only")}}, "corpus/fixed-F2")
 		add(&history{Note: "the same grouping three times, resolved for either architecture: hits", Pool: p,
 			Calls: []hCall{multi("x", "common"), multi("y", "common"), multi("x", "only")}}, "corpus")
 		// an architecture WITHOUT indexes contributes nothing to the key
 		add(&history{Note: "{x:[i0], y:[]} after {x:[i0]}: same key, y lacks everything", Pool: p,
-			Calls: []hCall{mkCall(p, []group{g("x", 0)}, "x", "only"), mkCall(p, []group{g("x", 0), g("y")}, "x", "only")}}, "corpus/finding")
+			Calls: []hCall{mkCall(p, []group{g("x", 0)}, "x", "only"), mkCall(p, []group{g("x", 0), g("y")}, "x", "only")}}, "corpus/fixed-F2")
 		add(&history{Note: "{x:[i0]} after {x:[i0], y:[]}", Pool: p,
-			Calls: []hCall{mkCall(p, []group{g("x", 0), g("y")}, "x", "only"), mkCall(p, []group{g("x", 0)}, "x", "only")}}, "corpus/finding")
+			Calls: []hCall{mkCall(p, []group{g("x", 0), g("y")}, "x", "only"), mkCall(p, []group{g("x", 0)}, "x", "only")}}, "corpus/fixed-F2")
 		// no architectures at all, then one, then two
 		add(&history{Note: "allArchs empty, then {x}, then {x, y}", Pool: p,
 			Calls: []hCall{{Groups: []group{}, Own: []int{0}, World: []string{"only"}}, mkCall(p, []group{g("x", 0)}, "x", "only"), multi("x", "only"), multi("y", "common")}}, "corpus")
@@ -263,9 +264,9 @@ func stageDqcache(out string, seed uint64, tier string) error {
 		u2 := append(smallUniverse(), pkgT{Name: "lib", Version: "3.0-r0"})
 		p := mkPool(u0, u1, u2)
 		add(&history{Note: "{x:[i0], y:[i1], z:[i2]} then {x:[i0,i1], y:[i2]}", Pool: p,
-			Calls: []hCall{mkCall(p, []group{g("x", 0), g("y", 1), g("z", 2)}, "x", "app"), mkCall(p, []group{g("x", 0, 1), g("y", 2)}, "x", "app")}}, "corpus/finding")
+			Calls: []hCall{mkCall(p, []group{g("x", 0), g("y", 1), g("z", 2)}, "x", "app"), mkCall(p, []group{g("x", 0, 1), g("y", 2)}, "x", "app")}}, "corpus/fixed-F2")
 		add(&history{Note: "the reverse", Pool: p,
-			Calls: []hCall{mkCall(p, []group{g("x", 0, 1), g("y", 2)}, "y", "lib"), mkCall(p, []group{g("x", 0), g("y", 1), g("z", 2)}, "z", "lib")}}, "corpus/finding")
+			Calls: []hCall{mkCall(p, []group{g("x", 0, 1), g("y", 2)}, "y", "lib"), mkCall(p, []group{g("x", 0), g("y", 1), g("z", 2)}, "z", "lib")}}, "corpus/fixed-F2")
 		add(&history{Note: "three architectures, every one resolved: message names a lacking sibling", Pool: p,
 			Calls: []hCall{mkCall(p, []group{g("arm/v6", 0), g("arm/v7", 1), g("amd64", 2)}, "arm/v6", "tool"), mkCall(p, []group{g("arm/v6", 0), g("arm/v7", 1), g("amd64", 2)}, "arm/v7", "app"),
 				mkCall(p, []group{g("arm/v6", 0), g("arm/v7", 1), g("amd64", 2)}, "amd64", "lib")}}, "corpus")
